@@ -465,7 +465,7 @@ def jobs(tier):
     for sh in [(1,), (2,), (1, 2), (1, 1), (3,), (1, 1, 1)] + ([(1, 3), (2, 2)] if tier != "quick" else []):
         js.append(Job(f"blanks[{sh}]", job_blanks, shape=sh))
     # ... over every scalar value above U+0020 (variation selectors, tags, plane 16 included), small shapes
-    for sh in [(2,), (1, 1)] + ([(1, 2), (3,)] if tier != "quick" else []):
+    for sh in [(2,), (1, 1)] + ([(1, 2)] if tier != "quick" else []):  # (3,) exceeds 50000 paths over the full range
         js.append(Job(f"blanks[{sh},all scalar values]", job_blanks, shape=sh, range=(0x21, 0x10FFFF)))
     # advance
     for h in (10, 24, 36, 70, 100, 128, 1000) if tier == "quick" else (7, 10, 24, 36, 64, 70, 100, 128, 136, 512, 1000, 1024):
